@@ -13,8 +13,9 @@ func gs(i byte) []byte { return []byte{0x24, i} }
 // VerifC01_ImportedGlobals: a module that imports mutable globals of another instance - two different ones, or ONE global
 // under two import indexes (aliases) - reads and writes them in every short order: the optimised SSA of the compiler
 // front end (which caches global values per index) and the interpreter agree on results and on the exporter's globals,
-// for all values.
-//verif:opts split=prog:6
+// for all values. Programs 6-8 also call an imported function of the exporter that changes its global g0 in between
+// (a callee may change any mutable global, so nothing read before the call may be reused after it).
+//verif:opts split=prog:9
 func VerifC01_ImportedGlobals() {
 	alias := verifrt.Choose("aliased", 2) == 1
 	owners := []int{0, 1}
@@ -23,7 +24,8 @@ func VerifC01_ImportedGlobals() {
 	}
 	var body []byte
 	params, results := []byte{i32}, []byte{i32}
-	switch verifrt.Choose("prog", 6) {
+	bump := false
+	switch verifrt.Choose("prog", 9) {
 	case 0: // read 1 ; write 0 ; read 1
 		body = cat(gg(1), []byte{0x1a}, lg(0), gs(0), gg(1))
 	case 1: // write 0 ; read 1
@@ -36,8 +38,22 @@ func VerifC01_ImportedGlobals() {
 		body = cat(gg(0), gg(1), []byte{0x6a}, gs(1), gg(0))
 	case 5: // in a branch: if x then write 0 end ; read 1
 		body = cat(gg(1), []byte{0x1a}, lg(0), []byte{0x04, 0x40}, lg(0), gs(0), []byte{0x0b}, gg(1))
+	case 6: // read 0 ; call bump ; read 0
+		bump = true
+		body = cat(gg(0), []byte{0x1a}, []byte{0x10, 0x00}, gg(0))
+	case 7: // write 0 ; call bump ; read 0
+		bump = true
+		body = cat(lg(0), gs(0), []byte{0x10, 0x00}, gg(0))
+	case 8: // read 1 ; call bump ; read 1 (changes when 1 is an alias of 0)
+		bump = true
+		body = cat(gg(1), []byte{0x1a}, []byte{0x10, 0x00}, gg(1))
 	}
-	bin := interpreter.VerifImportedGlobalsModule(owners, params, results, body)
+	var bin []byte
+	if bump {
+		bin = interpreter.VerifImportedGlobalsModuleWithBump(owners, params, results, body)
+	} else {
+		bin = interpreter.VerifImportedGlobalsModule(owners, params, results, body)
+	}
 	i0, i1 := verifrt.U32("g0"), verifrt.U32("g1")
 	x := uint64(verifrt.U32("a0"))
 	resI, trapI, g0I, g1I, ok := interpreter.VerifInterpRunWithGlobalsExporter(bin, i0, i1, []uint64{x})
@@ -52,6 +68,7 @@ func VerifC01_ImportedGlobals() {
 	}
 	w.extOwner = owners
 	w.ext = []vVal{{lo: uint64(i0)}, {lo: uint64(i1)}}
+	w.hostFx = func(uint32) { w.ext[0].lo = uint64(uint32(w.ext[0].lo) + 1) } // A.bump
 	resC, outcome := w.call(0, []vVal{{lo: x}})
 	if outcome == vOutUnsupported || w.unsupp != "" {
 		verifrt.Note("unsupported: " + w.unsupp)
